@@ -373,7 +373,7 @@ func (f *Frame) pointEnv(st *State, b *ssa.BasicBlock, idx int, extra map[string
 		pkg = u.fn.Pkg.Pkg
 	}
 	e := &Env{u: u, st: st, old: u.entry, bound: map[string]boundVar{}, pkg: pkg, qctr: &u.qctr}
-	e.lookup = func(name string) (TV, bool) {
+	e.lookup = func(e *Env, name string) (TV, bool) {
 		if extra != nil {
 			if tv, ok := extra[name]; ok {
 				return tv, true
@@ -403,6 +403,22 @@ func (f *Frame) pointEnv(st *State, b *ssa.BasicBlock, idx int, extra map[string
 			return TV{}, false
 		}
 		val := f.val(v, e.st)
+		if isAddr && val.LV != nil && val.LV.Kind == "cell" {
+			if _, live := e.st.cells[val.LV.Cell]; !live {
+				// the state predates the cell (old() of a captured parameter): the parameter's entry value
+				for _, p := range f.fn.Params {
+					if p.Name() == name {
+						return TV{T: f.val(p, e.st).T, Ty: p.Type()}, true
+					}
+				}
+				// a local declared after entry: old() only rewinds the heap, the variable keeps its current value
+				if e.cur != nil {
+					if t, ok := e.cur.cells[val.LV.Cell]; ok {
+						return TV{T: t, Ty: val.LV.Cell.Ty}, true
+					}
+				}
+			}
+		}
 		if isAddr {
 			pt, _ := v.Type().Underlying().(*types.Pointer)
 			if pt == nil {
